@@ -331,13 +331,13 @@ func FromUint(i uint64) Number {
 // outside the boundaries specified for the decimal64 value specified in
 // RFC6020/RFC7950 are clamped down to the closest boundary value.
 func FromFloat(f float64) Number {
-	if f > MaxDecimal64 {
+	if f >= MaxDecimal64 {
 		return Number{
 			Value:          FromInt(MaxInt64).Value,
 			FractionDigits: 1,
 		}
 	}
-	if f < MinDecimal64 {
+	if f <= MinDecimal64 {
 		return Number{
 			Negative:       true,
 			Value:          FromInt(MaxInt64).Value,
